@@ -28,16 +28,23 @@ def scripts_for(prop, tier, rng):
         s += jobgen.ticket_scripts(rng, 300 if q else 3000)
         s += jobgen.hook_scripts(rng, 500 if q else 5000)
         s += jobgen.long_scripts(rng, 40 if q else 400)
+        s += jobgen.graceful_fault_grid()
+        r = jobgen.raw_scripts(rng, 200 if q else 2000)
+        s += rng.sample(r, 400) if q else r
         return s
     if prop == "C04":
         return (rng.sample(jobgen.exhaustive_pairs(), 300 if q else 1296) +
-                jobgen.mixed_scripts(rng, 1200 if q else 12000, maxlen=10) + jobgen.long_scripts(rng, 40 if q else 400))
+                jobgen.mixed_scripts(rng, 1200 if q else 12000, maxlen=10) + jobgen.long_scripts(rng, 40 if q else 400) +
+                (rng.sample(jobgen.raw_scripts(rng, 300), 500) if q else jobgen.raw_scripts(rng, 3000)))
     if prop == "C06":
         g = jobgen.graceful_grid()
-        return (g if not q else rng.sample(g, 1200)) + jobgen.mixed_scripts(rng, 300 if q else 4000)
+        f = jobgen.graceful_fault_grid()
+        return (g if not q else rng.sample(g, 1200)) + jobgen.mixed_scripts(rng, 300 if q else 4000) + \
+            (f if not q else rng.sample(f, 300))
     if prop == "C07":
         return jobgen.ticket_scripts(rng, 1500 if q else 15000) + \
-            rng.sample(jobgen.exhaustive_single(), 300) + jobgen.long_scripts(rng, 40 if q else 400)
+            rng.sample(jobgen.exhaustive_single(), 300) + jobgen.long_scripts(rng, 40 if q else 400) + \
+            jobgen.graceful_fault_grid()
     if prop == "C10":
         return jobgen.order_scripts(rng, 400 if q else 3000)
     raise ValueError(prop)
